@@ -48,7 +48,7 @@ def sample(rng, t, depth=0):
             elif t[1] == 'any':
                 out += rng.choice(relib.CHARS)
             elif t[1] == 'brk':
-                for c in [b'a', b'b', b'c', b'A', b'1', b' ', b'_', b']', b'-', 'é'.encode(), 'à'.encode(), '中'.encode(), b'.', b'x']:
+                for c in [b'a', b'b', b'c', b'A', b'1', b' ', b'_', b']', b'-', 'é'.encode(), 'à'.encode(), '中'.encode(), b'.', b'x', b'(', b')', b'[', b'*']:
                     cp, _ = relib.dec_at(c, 0)
                     if relib.brk_in(t[2][1:], cp, False):
                         out += c
@@ -131,6 +131,38 @@ def gen_cases(ctx, res):
             cases.append((rng.choice([0, 0, 0, 2, 4, 6]), s))
         out.append({'flg': flg, 'nsub': nsub, 'pats': pats, 'cases': cases, 'trees': wt, 'kind': 'structured'})
         ntrip += len(cases)
+    # aimed at rset.c's group bookkeeping (defect f534655): a bracket whose text contains parentheses, '[*' or a class in
+    # first position, followed by real groups, alone and as the FIRST pattern of a set (grp[] of the later patterns)
+    naim = 400 if ctx.quick else 4000
+    for i in range(naim):
+        b = rng.choice(relib.PBRKS)
+        mn, mx = rng.choice([(1, 1), (1, 1), (1, -1), (0, 1)])
+        t0 = ('atom', 'brk', b, mn, mx)
+        shape = rng.below(4)
+        if shape == 1:
+            t0 = ('cat', t0, ('grp', 0, 1, 1, ('atom', 'chr', rng.choice([b'x', b'b', b'1']), 1, 1)))
+        elif shape == 2:
+            t0 = ('cat', ('grp', 0, 1, 1, t0), ('grp', 0, 1, 1, ('atom', 'chr', rng.choice([b'x', b'b']), 1, 1)))
+        elif shape == 3:
+            t0 = ('cat', ('atom', 'chr', rng.choice([b'a', b'_']), 1, 1), ('cat', t0, ('grp', 0, 0, 1, ('atom', 'any', b'', 1, 1))))
+        trees = [relib.normalize(t0)]
+        for _ in range(rng.choice([0, 1, 1, 2])):
+            t1 = rng.choice([('atom', 'chr', rng.choice([b'y', b'1', b'c']), 1, 1),
+                             ('grp', 0, 1, 1, ('atom', 'chr', rng.choice([b'y', b'c']), 1, 1)),
+                             ('cat', ('atom', 'chr', b'c', 1, 1), ('grp', 0, 1, 1, ('atom', 'brk', rng.choice(relib.PBRKS), 1, 1)))])
+            trees.append(relib.normalize(t1))
+        if rng.below(3) == 0:
+            trees.reverse()
+        pats = [relib.render(t) for t in trees]
+        wt = relib.wrap_set(trees)
+        nsub = min(9, 1 + max(relib.count_groups(t) for t in trees))
+        cases = []
+        for _ in range(3):
+            s = relib.gen_line(rng, pats)[:rng.below(4)] + sample(rng, rng.choice(trees)) + relib.gen_line(rng, pats)[:rng.below(4)]
+            if not relib.valid_utf8(s):
+                s = s.decode('utf-8', 'ignore').encode()
+            cases.append((rng.choice([0, 0, 2, 4]), s + (b'\n' if rng.below(2) else b'')))
+        out.append({'flg': 0, 'nsub': nsub, 'pats': pats, 'cases': cases, 'trees': wt, 'kind': 'structured'})
     # long lines that hit the recursion-depth limit
     nlong = 40 if ctx.quick else 400
     for i in range(nlong):
